@@ -1,5 +1,5 @@
 SPECIFICATION Spec
-CONSTANTS S1 = 8 S2 = 7 S3 = 0  MaxV = 1  Start = "Holes"  Strict = FALSE  Cross = FALSE  Close = FALSE  LabelBoundary = FALSE
+CONSTANTS S1 = 8 S2 = 7 S3 = 0  MaxV = 1  Start = "Holes"  Strict = FALSE  Cross = FALSE  Close = FALSE  LabelBoundary = FALSE  RankByArray = FALSE  Coarse = 1
 CHECK_DEADLOCK FALSE
 INVARIANT CoordsAreBoundary
 INVARIANT EachOnce
